@@ -18,6 +18,9 @@ use vaporetto::{Predictor, Sentence};
 
 fn assert_send_sync<T: Send + Sync>() {}
 
+/// predictors per run (each fresh, shared by all threads)
+const ROUNDS: u64 = 10;
+
 fn main() {
     std::panic::set_hook(Box::new(|_| {}));
     assert_send_sync::<Predictor>();
@@ -30,7 +33,7 @@ fn main() {
     let mut events: Vec<(u64, Value)> = vec![];
     let mut id = 0u64;
     // several predictors, one after the other; each shared by all threads
-    for round in 0..4u64 {
+    for round in 0..ROUNDS {
         let (mm, alpha) = record::gen_model(
             &mut rng,
             &record::GenOpts {
@@ -40,7 +43,10 @@ fn main() {
         );
         let mj = core::mmodel_to_json(&mm);
         let store = round % 2 == 0;
-        let pred = match core::predictor_from_json(&json!({"model": mj, "tags": true, "store": store})) {
+        // every third predictor is built WITHOUT tag prediction (other scorer variants: cached type scores, plain character
+        // scorer); such a predictor is never asked to fill tags
+        let with_tags = round % 3 != 1;
+        let pred = match core::predictor_from_json(&json!({"model": mj, "tags": with_tags, "store": store && with_tags})) {
             Ok(p) => p,
             Err(e) => {
                 writeln!(out, "{}", json!({"id": id, "ev": "newpred", "res": e, "model": mj})).unwrap();
@@ -49,6 +55,9 @@ fn main() {
             }
         };
         let seq = AtomicU64::new(0);
+        // all threads make their FIRST call on the fresh predictor at the same moment (no warm-up prediction anywhere)
+        let barrier = std::sync::Barrier::new(n_threads);
+        let barrier_ref = &barrier;
         let pred_ref = &pred;
         let seq_ref = &seq;
         let alpha_ref = &alpha;
@@ -61,9 +70,10 @@ fn main() {
                     let mut rng = StdRng::seed_from_u64(tseed);
                     let mut log = vec![];
                     let mut s = Sentence::default();
+                    barrier_ref.wait();
                     for _ in 0..iters {
                         let text = record::rand_text(&mut rng, alpha_ref, 1, 16);
-                        let fill = rng.gen_bool(0.7);
+                        let fill = with_tags && rng.gen_bool(0.7);
                         let b = seq_ref.fetch_add(1, Ordering::SeqCst);
                         log.push((b, json!({"ev": "begin", "t": t, "text": core::str_to_cps(&text), "fill": fill})));
                         let r = std::panic::catch_unwind(std::panic::AssertUnwindSafe(|| {
